@@ -12,6 +12,7 @@ require (
 	github.com/trainyao/go-maglev v0.0.0-20200611125015-4c1ae64d96a8
 	github.com/valyala/fasthttp v1.40.0
 	golang.org/x/net v0.23.0
+	google.golang.org/protobuf v1.33.0
 	mosn.io/api v1.6.0
 	mosn.io/mosn v1.2.0
 	mosn.io/pkg v1.6.0
@@ -58,7 +59,6 @@ require (
 	golang.org/x/tools v0.7.0 // indirect
 	google.golang.org/genproto v0.0.0-20230410155749-daa745c078e1 // indirect
 	google.golang.org/grpc v1.56.3 // indirect
-	google.golang.org/protobuf v1.33.0 // indirect
 	gopkg.in/natefinch/lumberjack.v2 v2.0.0 // indirect
 	gopkg.in/yaml.v2 v2.4.0 // indirect
 	istio.io/api v0.0.0-20211103171850-665ed2b92d52 // indirect
